@@ -294,6 +294,7 @@ def run(chk, ctx):
     round3.pending_marker_not_data(chk, ctx)    # a join that can never complete leaves the execution RUNNING for ever
     round3.terminated_range(chk, ctx)     # slots that were never launched must not be awaited: the lingering join state ends the execution twice
     from . import round4
+    round4.teardown_scoped_to_terminated_groups(chk, ctx)   # an enclosing join that can never complete leaves the execution RUNNING for ever
     round4.task_outcome_once(chk, ctx)       # a Task whose launcher produces no outcome leaves its execution RUNNING for ever; two outcomes end it twice
     chk.assume("engine-internal calls (change_state, handle_error, acknowledge, publish) do not raise; exception edges come from the may-raise table of sa/flow.py")
     chk.assume("loops run 0-or-more times; branch correlation only through the four idioms of DESIGN.md section 2")
